@@ -142,6 +142,8 @@ class _Normalizer:
                     aug.add(st.target.id)
             self.globals_rebound |= aug
             self._each_function(m, self._short_circuit_forms)
+            self._each_function(m, self._record_rows)
+            self._each_function(m, self._record_locals)
             self._each_function(m, self._memo_elision)
             self._each_function(m, self._guard_identity)
             for rnd in range(5):
@@ -1468,6 +1470,153 @@ class _Normalizer:
                         me.stats['short_circuit_forms'] = me.stats.get('short_circuit_forms', 0) + 1
                         i += 1
                 i += 1
+        ast.fix_missing_locations(fnode)
+
+    def _record_rows(self, fnode, cls, local):
+        """``TABLE[k].field`` -- directly, or through a local bound once to ``TABLE[k]`` / ``TABLE.get(k)`` -- where TABLE is a module-level
+        dict display whose values are all calls of one record type (namedtuple / NamedTuple class / value dataclass): the field by
+        its position, ``TABLE[k][i]``, the form the pinned code (plain tuples, unpacked) reads as."""
+        from . import sym as _sym
+        tables: Dict[str, List[str]] = {}
+        for name, vals in self.m.assigns.items():
+            if len(vals) != 1 or not isinstance(vals[0], ast.Dict) or not vals[0].values or name in local:
+                continue
+            rts = set()
+            for v in vals[0].values:
+                if isinstance(v, ast.Call) and isinstance(v.func, (ast.Name, ast.Attribute)):
+                    rts.add(v.func.id if isinstance(v.func, ast.Name) else v.func.attr)
+                else:
+                    rts.add(None)
+            if len(rts) == 1 and None not in rts and next(iter(rts)) in _sym.NAMEDTUPLE_FIELDS:
+                tables[name] = _sym.NAMEDTUPLE_FIELDS[next(iter(rts))]
+        if not tables:
+            return
+
+        def row_of(e) -> Optional[List[str]]:
+            if isinstance(e, ast.Subscript) and isinstance(e.value, ast.Name) and e.value.id in tables and not isinstance(e.slice, ast.Slice):
+                return tables[e.value.id]
+            return None
+        binds: Dict[str, List[ast.expr]] = {}
+        for n in ast.walk(fnode):
+            if isinstance(n, ast.Assign) and len(n.targets) == 1 and isinstance(n.targets[0], ast.Name):
+                binds.setdefault(n.targets[0].id, []).append(n.value)
+            elif isinstance(n, (ast.For, ast.With, ast.AugAssign, ast.NamedExpr)):
+                for y in ast.walk(n.target if hasattr(n, 'target') else n):
+                    if isinstance(y, ast.Name) and isinstance(y.ctx, ast.Store):
+                        binds.setdefault(y.id, []).append(None)
+        rows = {nm: row_of(vs[0]) for nm, vs in binds.items() if len(vs) == 1 and vs[0] is not None and row_of(vs[0]) is not None
+                and nm not in {a.arg for a in fnode.args.args}}
+        me = self
+
+        class T(ast.NodeTransformer):
+            def visit_FunctionDef(self_, n):
+                return n if n is not fnode else self_.generic_visit(n)
+            visit_AsyncFunctionDef = visit_FunctionDef
+
+            def visit_Attribute(self_, n):
+                n = self_.generic_visit(n)
+                if not isinstance(n.ctx, ast.Load):
+                    return n
+                fields = row_of(n.value) or (rows.get(n.value.id) if isinstance(n.value, ast.Name) else None)
+                if fields and n.attr in fields:
+                    me.stats['record_rows'] = me.stats.get('record_rows', 0) + 1
+                    return ast.copy_location(ast.Subscript(value=n.value, slice=ast.Constant(value=fields.index(n.attr)), ctx=ast.Load()), n)
+                return n
+        T().visit(fnode)
+        ast.fix_missing_locations(fnode)
+
+    def _record_locals(self, fnode, cls, local):
+        """``h = Record(a, b, *vals[:5], tail=vals[5:])`` with Record a record type of the package and ``h`` used only as ``h.field``:
+        each ``h.field`` is the component it was built from (``vals[i]`` for a field filled from a constant slice of a name)."""
+        from . import sym as _sym
+        params = {a.arg for a in fnode.args.args + fnode.args.kwonlyargs}
+        stores: Dict[str, List[ast.Assign]] = {}
+        for n in ast.walk(fnode):
+            if isinstance(n, ast.Assign) and len(n.targets) == 1 and isinstance(n.targets[0], ast.Name):
+                stores.setdefault(n.targets[0].id, []).append(n)
+            elif isinstance(n, (ast.For, ast.With, ast.AugAssign, ast.NamedExpr, ast.Assign)):
+                for y in ast.walk(n):
+                    if isinstance(y, ast.Name) and isinstance(y.ctx, ast.Store) and not (isinstance(n, ast.Assign) and len(n.targets) == 1 and n.targets[0] is y):
+                        stores.setdefault(y.id, []).append(None)
+        for nm, sts in stores.items():
+            if nm in params or len(sts) != 1 or sts[0] is None:
+                continue
+            v = sts[0].value
+            if not (isinstance(v, ast.Call) and isinstance(v.func, (ast.Name, ast.Attribute))):
+                continue
+            rname = v.func.id if isinstance(v.func, ast.Name) else v.func.attr
+            make = False
+            if rname == '_make' and isinstance(v.func, ast.Attribute) and isinstance(v.func.value, ast.Name):
+                rname, make = v.func.value.id, True
+            fields = _sym.NAMEDTUPLE_FIELDS.get(rname)
+            if not fields:
+                continue
+            comp: Dict[str, ast.expr] = {}
+            ok = True
+            if make:
+                if len(v.args) != 1 or v.keywords or not isinstance(v.args[0], ast.Name):
+                    continue
+                for i, f_ in enumerate(fields):
+                    comp[f_] = ast.Subscript(value=ast.Name(id=v.args[0].id, ctx=ast.Load()), slice=ast.Constant(value=i), ctx=ast.Load())
+            else:
+                i = 0
+                for a in v.args:
+                    if isinstance(a, ast.Starred):
+                        sl = a.value
+                        if isinstance(sl, ast.Name):
+                            lo, hi, base = 0, len(fields) - i - len(v.keywords), sl
+                        elif isinstance(sl, ast.Subscript) and isinstance(sl.value, ast.Name) and isinstance(sl.slice, ast.Slice) and sl.slice.step is None \
+                                and (sl.slice.lower is None or isinstance(sl.slice.lower, ast.Constant)) and isinstance(sl.slice.upper, ast.Constant):
+                            lo = sl.slice.lower.value if sl.slice.lower is not None else 0
+                            hi, base = sl.slice.upper.value, sl.value
+                        else:
+                            ok = False
+                            break
+                        if not (isinstance(lo, int) and isinstance(hi, int) and 0 <= lo <= hi):
+                            ok = False
+                            break
+                        for k in range(lo, hi):
+                            if i >= len(fields):
+                                ok = False
+                                break
+                            comp[fields[i]] = ast.Subscript(value=ast.Name(id=base.id, ctx=ast.Load()), slice=ast.Constant(value=k), ctx=ast.Load())
+                            i += 1
+                    else:
+                        if i >= len(fields) or not (_is_simple_or_const(a) or (isinstance(a, ast.Subscript) and _is_simple(a.value))):
+                            ok = False
+                            break
+                        comp[fields[i]] = a
+                        i += 1
+                for k in v.keywords:
+                    if k.arg is None or k.arg not in fields or k.arg in comp or not (_is_simple_or_const(k.value) or isinstance(k.value, ast.Subscript)):
+                        ok = False
+                        break
+                    comp[k.arg] = k.value
+                if not ok or set(comp) != set(fields):
+                    continue
+            # the names the components read must not be rebound after the record is built
+            read = {y.id for e in comp.values() for y in ast.walk(e) if isinstance(y, ast.Name)}
+            if any(len(stores.get(r, [])) > 1 for r in read):
+                continue
+            uses = [y for y in ast.walk(fnode) if isinstance(y, ast.Name) and y.id == nm and isinstance(y.ctx, ast.Load)]
+            attr_uses = [y for y in ast.walk(fnode) if isinstance(y, ast.Attribute) and isinstance(y.value, ast.Name) and y.value.id == nm
+                         and isinstance(y.ctx, ast.Load) and y.attr in comp]
+            if not uses or len(uses) != len(attr_uses):
+                continue
+
+            class T(ast.NodeTransformer):
+                def visit_Attribute(self_, n):
+                    n = self_.generic_visit(n)
+                    if isinstance(n.value, ast.Name) and n.value.id == nm and isinstance(n.ctx, ast.Load) and n.attr in comp:
+                        return ast.copy_location(copy.deepcopy(comp[n.attr]), n)
+                    return n
+            T().visit(fnode)
+            for blk in _blocks(fnode):
+                if sts[0] in blk:
+                    blk.remove(sts[0])
+                    if not blk:
+                        blk.append(ast.Pass())
+            self.stats['record_locals'] = self.stats.get('record_locals', 0) + 1
         ast.fix_missing_locations(fnode)
 
     def _missing_tables(self) -> Dict[str, ast.expr]:
